@@ -236,7 +236,7 @@ def run(ctx):
     rng = ctx.rng
     for kind, sdef, tag in CORPUS:
         check(ctx, kind, sdef, "corpus:" + tag)
-    n_cases = ctx.n(330, 9000)
+    n_cases = ctx.n(800, 9000)
     done = tries = 0
     while done < n_cases and tries < 20 * n_cases:
         tries += 1
